@@ -43,10 +43,12 @@ def base_line():
 
 def histories(tier):
     nt = 8 if tier == "thorough" else 6
-    depth = 3 if tier == "thorough" else 2
+    depth = 3
     out = []
     for d in range(1, depth + 1):
         for tup in itertools.product(range(nt), repeat=d):
+            if tier != "thorough" and d == 3 and len(set(tup)) < 2:
+                continue
             for ns in itertools.product((1, 2), repeat=d):
                 out.append(list(zip(tup, ns)))
     # solve-without-setup after an option change that does not need a new setup (negative count = no setup())
@@ -120,7 +122,7 @@ def main(tier):
                 "after EVERY solve the observation (solution bitwise, iterations, "
                 "reduction factor, both error figures) is compared with a freshly constructed solver; states = distinct hidden "
                 "state strings (levels, residual history length, error history length, full_grid_smoothing, iterations) x tuples; "
-                "transitions = setter blocks, setup() and solve() calls" % (3 if tier == "thorough" else 2, 8 if tier == "thorough" else 6),
+                "transitions = setter blocks, setup() and solve() calls" % (3, 8 if tier == "thorough" else 6),
         "samples": [",".join("%d:%d" % (t, n) for t, n in hs[0]), ",".join("%d:%d" % (t, n) for t, n in hs[len(hs) // 2]), TUPLES[2]],
         "exhaustive": True,
     }
